@@ -28,7 +28,7 @@ def mutants():
     for name in sorted(os.listdir(directory)):
         if name.endswith('.patch'):
             found.append((name[:-6], name.split('-')[0].upper(),
-                          os.path.join(directory, name)))
+                          os.path.join(directory, name), None))
 
     seeded = os.path.join(VERIF, 'seeded')
 
@@ -39,14 +39,15 @@ def mutants():
 
             if os.path.exists(meta) and os.path.exists(patch):
                 with open(meta) as fin:
-                    prop = json.load(fin)['property']
+                    data = json.load(fin)
 
-                found.append(('seeded/' + name, prop, patch))
+                found.append(('seeded/' + name, data['property'], patch,
+                              data.get('base')))
 
     return found
 
 
-def run_one(name, prop, patch, tier, extra):
+def run_one(name, prop, patch, base, tier, extra):
     scratch = tempfile.mkdtemp(prefix='vsim-mutant-')
 
     try:
@@ -57,6 +58,20 @@ def run_one(name, prop, patch, tier, extra):
         proc = subprocess.run(['patch', '-p1', '-s', '-d', scratch, '-i',
                                patch], stdout=subprocess.PIPE,
                               stderr=subprocess.STDOUT)
+
+        if proc.returncode != 0 and base:
+            # The change no longer applies to the working tree: evaluate it
+            # on the commit it was written for.
+            shutil.rmtree(os.path.join(scratch, 'asn1tools'))
+            archive = subprocess.run(['git', '-C', REPO, 'archive', base,
+                                      'asn1tools'], stdout=subprocess.PIPE,
+                                     check=True)
+            subprocess.run(['tar', '-x', '-C', scratch], input=archive.stdout,
+                           check=True)
+            proc = subprocess.run(['patch', '-p1', '-s', '-d', scratch, '-i',
+                                   patch], stdout=subprocess.PIPE,
+                                  stderr=subprocess.STDOUT)
+            name += '@' + base
 
         if proc.returncode != 0:
             return 'PATCH-FAILED', proc.stdout.decode()[-300:], 0
@@ -100,11 +115,11 @@ def main():
 
     missed = 0
 
-    for name, prop, patch in mutants():
+    for name, prop, patch, base in mutants():
         if args and not any(a in name for a in args):
             continue
 
-        verdict, detail, wall = run_one(name, prop, patch, tier, extra)
+        verdict, detail, wall = run_one(name, prop, patch, base, tier, extra)
         print('{:<10} {:<5} {:<40} {:.0f}s'.format(verdict, prop, name, wall),
               flush=True)
 
